@@ -17,6 +17,9 @@ pub use snapshot::ServerContextSnapshot;
 pub use status_bar::ProgressTask;
 pub use status_bar::StatusBar;
 use std::{collections::HashMap, future::Future, sync::Arc};
+#[cfg(feature = "verif")]
+use crate::verif_locks::{Mutex, RwLock};
+#[cfg(not(feature = "verif"))]
 use tokio::sync::{Mutex, RwLock};
 use tokio_util::sync::CancellationToken;
 pub use workspace_manager::*;
@@ -178,7 +181,16 @@ impl ServerContext {
         let cancellations = self.cancellations.clone();
 
         tokio::spawn(async move {
-            let res = exec(cancel_token.clone()).await;
+            // Run the handler in its own task so that a panic inside it is observed here
+            // (as a `JoinError`) and still answered with an internal error instead of
+            // leaving the request without a response.
+            let res = match tokio::spawn(exec(cancel_token.clone())).await {
+                Ok(res) => res,
+                Err(err) => {
+                    log::error!("request handler for {:?} failed: {}", req_id, err);
+                    None
+                }
+            };
             if cancel_token.is_cancelled() {
                 let response = Response::new_err(
                     req_id.clone(),
